@@ -4,6 +4,9 @@
 // answers, the Lean driver (drv_c08 distance) evaluates the exact specification and answers `ok` or the
 // violated clause, so the expected line is always `ok`.
 //   c08 distance <seed> <n> <outbase>
+// About 7% of the pairs are "pythagorean": the two geometries lie in opposite quadrants about their facing bounding-box corners,
+// which are vertices separated by (a*k, b*k) for a Pythagorean triple (a,b,c) and a random odd k up to ~2^30/c — the true distance
+// is exactly c*k (representable) while the squares of the coordinate differences need more than 53 bits.
 //   c08 replay   <file>          lines "<sridA geomA> <sridB geomB> [R ...]" -> full case lines on stdout
 #include "gtree.h"
 #include <geos_c.h>
@@ -213,6 +216,44 @@ struct Gen {
             default: { IG g; g.tag = "ML"; int n = r.range(8, 22); for (int i = 0; i < n; i++) { IG l = line(R); if (l.seqs[0].size() == 2 && l.seqs[0][0] == l.seqs[0][1]) l.seqs[0][1].x += 1; g.kids.push_back(l); } return g; }
         }
     }
+    // a geometry inside the quadrant x <= 0, y <= 0 that has a vertex at the origin = the (max x, max y) corner of its envelope
+    IG cornered(int type, int scale) {
+        IG g;
+        auto down = [&](P p) { P q; do { q = P{p.x - r.range(0, 5) * scale, p.y - r.range(0, 5) * scale}; } while (q == p); return q; };
+        if (type == 0) { g.tag = "P"; g.seqs.push_back({P{0, 0}}); return g; }
+        if (type == 1) {
+            g.tag = "L"; Ring a, b; P p{0, 0};
+            int na = r.range(0, 3), nb = r.range(na == 0 ? 1 : 0, 3);
+            for (int i = 0; i < na; i++) { p = down(p); a.push_back(p); }
+            p = P{0, 0}; for (int i = 0; i < nb; i++) { p = down(p); b.push_back(p); }
+            Ring sq(a.rbegin(), a.rend()); sq.push_back(P{0, 0}); for (auto q : b) sq.push_back(q);
+            g.seqs.push_back(sq); return g;
+        }
+        if (type == 2) {
+            g.tag = "Y"; ll w = r.range(1, 6) * scale, hh = r.range(1, 6) * scale; Ring shell;
+            switch (r.below(3)) {
+                case 0: shell = Ring{{-w, -hh}, {0, -hh}, {0, 0}, {-w, 0}, {-w, -hh}}; break;
+                case 1: shell = Ring{{0, 0}, {-w, 0}, {0, -hh}, {0, 0}}; break;
+                default: { P b{-w, -r.range(0, 3) * scale}, c{-r.range(0, 3) * scale, -hh}; if (det(P{0, 0}, b, c) == 0) c.x -= scale; shell = Ring{{0, 0}, b, c, {0, 0}}; }
+            }
+            if (r.chance(50)) std::reverse(shell.begin(), shell.end());
+            g.seqs.push_back(shell);
+            if (shell.size() == 5 && w >= 3 * scale && hh >= 3 * scale && r.chance(50)) { g.seqs.push_back(Ring{{-w + scale, -hh + scale}, {-scale, -hh + scale}, {-scale, -scale}, {-w + scale, -scale}, {-w + scale, -hh + scale}}); out.count("gen_hole"); }
+            return g;
+        }
+        // multi / collection: one cornered element plus others strictly deeper in the quadrant
+        int et = type == 3 ? 0 : type == 4 ? 1 : type == 5 ? 2 : (int) r.below(3);
+        g.tag = type == 3 ? "MP" : type == 4 ? "ML" : type == 5 ? "MY" : "GC";
+        IG first = cornered(et, scale);
+        IG rest = type == 3 ? multi("MP", 8) : type == 4 ? multi("ML", 8) : type == 5 ? multi("MY", 8) : collection(8, 1);
+        forEachPt(rest, [&](P& p) { p.x *= scale; p.y *= scale; });
+        { ll a, b, c, d; bbox(rest, a, b, c, d); if (a <= b) shift(rest, -b - (8 + r.range(0, 20)) * scale, -d - (8 + r.range(0, 20)) * scale); }
+        bool front = r.chance(50);
+        if (front) g.kids.push_back(first);
+        for (auto& k : rest.kids) g.kids.push_back(k);
+        if (!front) g.kids.push_back(first);
+        return g;
+    }
     // a small geometry around the origin (for containment configurations)
     IG small() {
         switch (r.below(4)) {
@@ -233,6 +274,34 @@ static std::string npTok(GEOSContextHandle_t h, GEOSCoordSequence* cs) {
     GEOSCoordSeq_getXY_r(h, cs, 0, &x0, &y0); GEOSCoordSeq_getXY_r(h, cs, 1, &x1, &y1); GEOSCoordSeq_destroy_r(h, cs);
     return hex(x0) + " " + hex(y0) + " " + hex(x1) + " " + hex(y1);
 }
+static std::string npTokV(GEOSContextHandle_t h, GEOSCoordSequence* cs, double* v, bool& have) {
+    have = false;
+    if (!cs) return "E";
+    unsigned n = 0; GEOSCoordSeq_getSize_r(h, cs, &n);
+    if (n != 2) { GEOSCoordSeq_destroy_r(h, cs); return "E"; }
+    GEOSCoordSeq_getXY_r(h, cs, 0, &v[0], &v[1]); GEOSCoordSeq_getXY_r(h, cs, 1, &v[2], &v[3]); GEOSCoordSeq_destroy_r(h, cs);
+    have = true;
+    return hex(v[0]) + " " + hex(v[1]) + " " + hex(v[2]) + " " + hex(v[3]);
+}
+// if dx^2 + dy^2 is the square of a representable double, that double (exact integer arithmetic on the mantissas)
+static bool exactHyp(double dx, double dy, double& t) {
+    dx = std::fabs(dx); dy = std::fabs(dy);
+    if (!std::isfinite(dx) || !std::isfinite(dy) || (dx == 0 && dy == 0)) return false;
+    auto split = [](double v, unsigned long long& m, int& e) { if (v == 0) { m = 0; e = 0; return; } int ee; double f = std::frexp(v, &ee);
+        m = (unsigned long long) std::ldexp(f, 53); e = ee - 53; while ((m & 1) == 0) { m >>= 1; e++; } };
+    unsigned long long mx, my; int ex, ey; split(dx, mx, ex); split(dy, my, ey);
+    int e = mx == 0 ? ey : my == 0 ? ex : std::min(ex, ey);
+    auto bits = [](unsigned long long m) { int b = 0; while (m) { b++; m >>= 1; } return b; };
+    if ((mx && bits(mx) + (ex - e) > 62) || (my && bits(my) + (ey - e) > 62)) return false;
+    unsigned __int128 X = mx ? (unsigned __int128) mx << (ex - e) : 0, Y = my ? (unsigned __int128) my << (ey - e) : 0;
+    unsigned __int128 s = X * X + Y * Y;
+    unsigned __int128 r = (unsigned __int128) std::sqrt((long double) s);
+    while (r * r > s) r--;
+    while ((r + 1) * (r + 1) <= s) r++;
+    if (r * r != s || r >= ((unsigned __int128) 1 << 53)) return false;
+    t = std::ldexp((double) (unsigned long long) r, e);
+    return std::isfinite(t) && t > 0;
+}
 static std::string tf(char c) { return c == 1 ? "1" : c == 0 ? "0" : "E"; }
 
 struct Sink { int fd; std::string buf; Sink& operator+=(const std::string& t) { if (fd >= 0) { ssize_t w = write(fd, t.data(), t.size()); (void) w; } else buf += t; return *this; } };
@@ -250,12 +319,19 @@ static void runPairTo(Sink& s, GEOSContextHandle_t h, const GeometryFactory* gf,
     const GEOSPreparedGeometry* pa = GEOSPrepare_r(h, A); const GEOSPreparedGeometry* pb = GEOSPrepare_r(h, B);
     ok = GEOSPreparedDistance_r(h, pa, B, &v); s += " pa " + num(ok, v);
     ok = GEOSPreparedDistance_r(h, pb, A, &v); s += " pb " + num(ok, v);
-    s += " np " + npTok(h, GEOSNearestPoints_r(h, A, B));
+    double npv[4] = {0, 0, 0, 0}; bool haveNp = false;
+    s += " np " + npTokV(h, GEOSNearestPoints_r(h, A, B), npv, haveNp);
     s += " nps " + npTok(h, GEOSNearestPoints_r(h, B, A));
     s += " npa " + npTok(h, GEOSPreparedNearestPoints_r(h, pa, B));
     s += " npb " + npTok(h, GEOSPreparedNearestPoints_r(h, pb, A));
     std::vector<double> ts;
-    if (dok && d > 0) { ts = {d * (1 - 1e-9), d, d * (1 + 1e-9), d * 0.5, d * 2}; }
+    if (dok && d > 0) {
+        // at, one ulp below and one ulp above the reported distance; and, when the reported nearest points are at an exactly representable
+        // distance (e.g. a Pythagorean offset), at / below / above that exact value as well
+        ts = {d * (1 - 1e-9), d, d * (1 + 1e-9), d * 0.5, d * 2, std::nextafter(d, 0.0), std::nextafter(d, INFINITY)};
+        double te = 0;
+        if (haveNp && exactHyp(npv[2] - npv[0], npv[3] - npv[1], te) && te != d) { ts.push_back(te); ts.push_back(std::nextafter(te, 0.0)); ts.push_back(std::nextafter(te, INFINITY)); }
+    }
     else { double m = 1; const Envelope* e = ga->getEnvelopeInternal(); if (!e->isNull()) m = std::max(std::fabs(e->getMaxX()), 1e-300); ts = {0.0, m * 1e-9}; }
     for (double t : ts) {
         s += " w " + hex(t) + " " + tf(GEOSDistanceWithin_r(h, A, B, t));
@@ -334,7 +410,23 @@ int main(int argc, char** argv) {
         std::string cfg;
         std::vector<P> va, vb; collectVerts(A, va); collectVerts(B, vb);
         int c = (int) r.below(100);
-        if (c < 18) {                       // far apart (often with overlapping envelopes in one axis)
+        if (r.chance(7)) {                  // exact Pythagorean offset between facing envelope corners
+            static const int PY[][3] = {{3, 4, 5}, {5, 12, 13}, {8, 15, 17}, {7, 24, 25}, {20, 21, 29}, {12, 35, 37}, {9, 40, 41}, {28, 45, 53}, {11, 60, 61}, {33, 56, 65}};
+            const int* t = PY[r.below(10)];
+            int bitsK = r.chance(12) ? r.range(1, 24) : r.range(27, 31);
+            ll top = ((ll) 1 << bitsK) / t[2]; if (top < 1) top = 1;
+            ll k = (top / 2 + (ll) r.below((uint64_t) (top - top / 2 + 1))) | 1;
+            int scale = r.chance(60) ? 1 : r.chance(50) ? r.range(2, 1000) : (int) std::min<ll>(1000000, std::max<ll>(1, k / r.range(3, 50)));
+            ta = (int) r.below(7); tb = (int) r.below(7);
+            A = gen.cornered(ta, scale); B = gen.cornered(tb, r.chance(50) ? scale : 1);
+            forEachPt(B, [&](P& p) { p.x = -p.x; p.y = -p.y; });
+            bool sw = r.chance(50);
+            Gen::shift(B, (sw ? t[1] : t[0]) * k, (sw ? t[0] : t[1]) * k);
+            cfg = "pythagorean"; { ll big = std::max(t[0], t[1]) * k; out.count(big * big >= ((ll) 1 << 53) ? "pyth_squares_over_53_bits" : "pyth_squares_exact"); }
+            out.count(std::string("pyth_triple_") + std::to_string(t[2])); c = -1;
+        }
+        if (c < 0) {}
+        else if (c < 18) {                       // far apart (often with overlapping envelopes in one axis)
             ll dx = r.chance(70) ? r.range(25, 200) * (r.chance(50) ? 1 : -1) : 0, dy = (dx == 0 || r.chance(50)) ? r.range(25, 200) * (r.chance(50) ? 1 : -1) : 0;
             Gen::shift(B, dx, dy); cfg = "far";
         } else if (c < 40) { Gen::shift(B, r.range(-12, 12), r.range(-12, 12)); cfg = "near"; }
